@@ -34,6 +34,15 @@ fn set_cur(family: &'static str, cfg: u8, cap: usize, buf: &[u8]) {
         CUR.3[..n].copy_from_slice(&buf[..n]);
     }
 }
+/// C01: the buffer handed to the parser is a prefix of a larger allocation whose tail is filled with bytes that every
+/// scanner class accepts: a read past the end of the buffer keeps scanning and trips the cursor's debug assertion
+/// (`cursor <= end`) or changes the result, instead of going unnoticed
+fn with_tail(buf: &[u8]) -> Vec<u8> {
+    let mut v = Vec::with_capacity(buf.len() + 64);
+    v.extend_from_slice(buf);
+    v.extend(std::iter::repeat(b'v').take(64));
+    v
+}
 fn install_panic_hook() {
     std::panic::set_hook(Box::new(|info| {
         let (fam, cfg, cap, buf, n) = unsafe { (CUR.0, CUR.1, CUR.2, CUR.3, CUR.4) };
@@ -167,6 +176,8 @@ fn hdrs_match(real: &[(Option<(usize, usize)>, Option<(usize, usize)>, usize)], 
 }
 
 fn check_request(ctx: &mut Ctx, buf: &[u8], cfgb: u8, cap: usize) {
+    let arena = with_tail(buf);
+    let buf = &arena[..buf.len()];
     set_cur("request", cfgb, cap, buf);
     let cfg = Cfg::from_bits(cfgb);
     let exp = spec_request(buf, cfg, cap);
@@ -189,6 +200,8 @@ fn check_request(ctx: &mut Ctx, buf: &[u8], cfgb: u8, cap: usize) {
     }
 }
 fn check_response(ctx: &mut Ctx, buf: &[u8], cfgb: u8, cap: usize) {
+    let arena = with_tail(buf);
+    let buf = &arena[..buf.len()];
     set_cur("response", cfgb, cap, buf);
     let cfg = Cfg::from_bits(cfgb);
     let exp = spec_response(buf, cfg, cap);
@@ -216,6 +229,8 @@ fn check_response(ctx: &mut Ctx, buf: &[u8], cfgb: u8, cap: usize) {
     }
 }
 fn check_headers(ctx: &mut Ctx, buf: &[u8], cap: usize) {
+    let arena = with_tail(buf);
+    let buf = &arena[..buf.len()];
     set_cur("headers", 0, cap, buf);
     ctx.evals += 1;
     let exp = spec_hdrs(buf, 0, HCfg::default(), cap);
@@ -230,6 +245,8 @@ fn check_headers(ctx: &mut Ctx, buf: &[u8], cap: usize) {
     if !ok { ctx.add(Finding { stage: "headers", gen: "", family: "headers", oracle: "parse_headers".into(), entry: "parse_headers".into(), cfg: 0, cap, input: buf.to_vec(), real: real_s, expected: format!("{:?}", exp) }); }
 }
 fn check_chunk(ctx: &mut Ctx, buf: &[u8]) {
+    let arena = with_tail(buf);
+    let buf = &arena[..buf.len()];
     set_cur("chunk", 0, 0, buf);
     ctx.evals += 1;
     let exp = spec_chunk(buf);
@@ -304,6 +321,8 @@ fn search_request(ctx: &mut Ctx) {
             for k in 0..=m.len() { check_request(ctx, &m[..k], cfgb, 1); }
         }
     }
+    ctx.gen = "buffer-end";
+    for l in 0..=100usize { let mut m = b"GET /".to_vec(); m.extend(pad(b'x', l)); check_request(ctx, &m, 0, 1); }
     // version literal and method variants
     ctx.gen = "enum";
     for v in [&b"HTTP/1.0"[..], b"HTTP/1.1", b"HTTP/1.2", b"http/1.1", b"HTTP/1.", b"HTTP/2.0", b"HTTP/1.11", b"XTTP/1.1", b"HTTP/1,1"] {
@@ -373,6 +392,13 @@ fn search_header_block(ctx: &mut Ctx, start: &[u8], kind: u8) {
         if l % 8 == 0 { run(ctx, &v[..v.len() - 36], &opt_cfgs, &[1]); run(ctx, &n, &opt_cfgs, &[1]); }
         if ctx.full() { return; }
     } } }
+    // unterminated long runs (buffer ends inside a value / name): every length, so that every block phase meets the buffer end
+    ctx.gen = "buffer-end";
+    for l in 0..=100usize {
+        let mut v = b"N: ".to_vec(); v.extend(pad(b'v', l)); run(ctx, &v, &[0], &[1]);
+        let mut n = pad(b'n', l); run(ctx, &n, &[0], &[1]); n.push(b':'); run(ctx, &n, &[0], &[1]);
+        let mut w = b"N: ".to_vec(); w.extend(pad(b'v', l)); w.extend(b"\r"); run(ctx, &w, &[0], &[1]);
+    }
     // value endings: every boundary byte as the last value byte, with optional trailing OWS
     ctx.gen = "value-end";
     for &b1 in BOUNDARY { for tail in [&b""[..], b" ", b"\t ", b" \t"] { for pre in [&b"v"[..], b"", b"caf\xc3"] {
